@@ -230,3 +230,60 @@ impl Marker {
         unsafe { *self.ptr = 0; }
     }
 }
+
+
+// ---------------------------------------------------------------- crash attribution
+// The case being run is remembered so that, if the implementation brings the process down (SIGSEGV / SIGABRT /
+// SIGBUS / SIGILL: double free, use after free, out-of-bounds access under the guard pages), a signal handler
+// can write it to `<dir>/<stream>.crash`; vcheck reports that case as the failing input.
+use std::sync::atomic::{AtomicI32, AtomicPtr, AtomicUsize, Ordering as CO};
+static CUR_PTR: AtomicPtr<u8> = AtomicPtr::new(std::ptr::null_mut());
+static CUR_LEN: AtomicUsize = AtomicUsize::new(0);
+static CRASH_FD: AtomicI32 = AtomicI32::new(-1);
+static CUR_HOLD: std::sync::Mutex<Vec<u8>> = std::sync::Mutex::new(Vec::new());
+
+pub fn note_current(case: &str) {
+    if CRASH_FD.load(CO::SeqCst) < 0 { return; }
+    let mut h = CUR_HOLD.lock().unwrap_or_else(|e| e.into_inner());
+    CUR_LEN.store(0, CO::SeqCst);
+    h.clear();
+    h.extend_from_slice(case.as_bytes());
+    CUR_PTR.store(h.as_mut_ptr(), CO::SeqCst);
+    CUR_LEN.store(h.len(), CO::SeqCst);
+}
+
+extern "C" fn on_crash(sig: libc::c_int) {
+    let fd = CRASH_FD.load(CO::SeqCst);
+    let (p, n) = (CUR_PTR.load(CO::SeqCst), CUR_LEN.load(CO::SeqCst));
+    unsafe {
+        if fd >= 0 && !p.is_null() && n > 0 {
+            let mut off = 0usize;
+            while off < n { let w = libc::write(fd, p.add(off) as *const libc::c_void, n - off); if w <= 0 { break; } off += w as usize; }
+            libc::fsync(fd);
+        }
+        // default action: die with the signal, so the exit status names it
+        libc::signal(sig, libc::SIG_DFL);
+        libc::raise(sig);
+    }
+}
+
+pub fn install_crash_reporter(dir: &str, stream: &str) {
+    let path = std::ffi::CString::new(format!("{dir}/{stream}.crash")).unwrap();
+    let _ = std::fs::create_dir_all(dir);
+    let _ = std::fs::remove_file(format!("{dir}/{stream}.crash"));
+    unsafe {
+        let fd = libc::open(path.as_ptr(), libc::O_WRONLY | libc::O_CREAT | libc::O_TRUNC, 0o644);
+        CRASH_FD.store(fd, CO::SeqCst);
+        // an alternate stack, so that a stack overflow can be reported too
+        let sz = 1 << 16;
+        let stack = libc::mmap(std::ptr::null_mut(), sz, libc::PROT_READ | libc::PROT_WRITE, libc::MAP_PRIVATE | libc::MAP_ANONYMOUS, -1, 0);
+        let ss = libc::stack_t { ss_sp: stack, ss_flags: 0, ss_size: sz };
+        libc::sigaltstack(&ss, std::ptr::null_mut());
+        for sig in [libc::SIGSEGV, libc::SIGABRT, libc::SIGBUS, libc::SIGILL] {
+            let mut sa: libc::sigaction = std::mem::zeroed();
+            sa.sa_sigaction = on_crash as usize;
+            sa.sa_flags = libc::SA_ONSTACK | libc::SA_NODEFER;
+            libc::sigaction(sig, &sa, std::ptr::null_mut());
+        }
+    }
+}
